@@ -410,9 +410,12 @@ class Fuzz(Stage):
             out = tempfile.mkdtemp(prefix='wdv-fuzz-')
             try:
                 e = dict(os.environ, PYTHONPATH=env.VERIF, WDV_REPO=env.REPO, PYTHONDONTWRITEBYTECODE='1')
-                subprocess.run([self.PY, '-m', 'wdverif.fuzz_c18', '--target', target, '--time', str(budget), '--seed', str(seed % 2**31 or 1),
-                                '--out', out, '--corpus', corpus], cwd=env.VERIF, env=e, stdout=subprocess.DEVNULL, stderr=subprocess.DEVNULL,
-                               timeout=budget + 120)
+                try:
+                    subprocess.run([self.PY, '-m', 'wdverif.fuzz_c18', '--target', target, '--time', str(budget), '--seed', str(seed % 2**31 or 1),
+                                    '--out', out, '--corpus', corpus], cwd=env.VERIF, env=e, stdout=subprocess.DEVNULL, stderr=subprocess.DEVNULL,
+                                   timeout=budget + 300)
+                except subprocess.TimeoutExpired:
+                    pass        # whatever the campaign flushed so far is read below; a slow campaign is never a violation
                 st = json.load(open(os.path.join(out, 'stats.json'))) if os.path.exists(os.path.join(out, 'stats.json')) else dict(executions=0)
                 res = Result()
                 res.evals = st.get('executions', 0)
